@@ -119,6 +119,12 @@ def _alias_table(rec):
     return '[' + ', '.join(f'({_lstr(k)}, {v})' for k, v in items) + ']'
 
 
+def _name_table(rec, column):
+    col = getattr(rec, column)
+    codes = sorted(int(c) for c in rec.value_set('code') if isinstance(c, (int, np.integer)))
+    return '[' + ', '.join(f'({c}, {_lstr(str(col[c]))})' for c in codes) + ']'
+
+
 def regen():
     g, p, u, n1 = _mods()
     import sys
@@ -150,6 +156,15 @@ def regen():
            f"  timeSeries := {int(n1.intent_codes.code['NIFTI_INTENT_TIME_SERIES'])},",
            f'  daDefaults := ({int(da.intent)}, {int(da.datatype)}, {int(da.encoding)}, {int(da.endian)}, {int(da.ind_ord)}) }}',
            '',
+           '/-- the columns the WRITER emits (gifti.py:368-378, 516-530): code -> string -/',
+           'def names : WNames := {',
+           f'  intent := {_name_table(n1.intent_codes, "niistring")},',
+           f'  dtype := {_name_table(n1.data_type_codes, "niistring")},',
+           f'  order := {_name_table(order, "label")},',
+           f'  encoding := {_name_table(enc, "specs")},',
+           f'  endian := {_name_table(end, "specs")},',
+           f'  xform := {_name_table(n1.xform_codes, "niistring")} }}',
+           '',
            '/-- data type codes the GIFTI standard allows (gifti.py GIFTI_DTYPES) -/',
            'def giftiDtypes : List Nat := [' + ', '.join(str(int(c)) for c in g.GIFTI_DTYPES) + ']',
            '',
@@ -157,7 +172,7 @@ def regen():
            f'def nativeBig : Bool := {"true" if sys.byteorder == "big" else "false"}',
            '', 'end Nb.C17.Gen', '']
     write_if_changed(os.path.join(LEAN, 'NibabelModel', 'Generated', 'C17Codes.lean'), '\n'.join(out))
-    return ['Nb.C17.Gen.codes', 'Nb.C17.Gen.giftiDtypes']
+    return ['Nb.C17.Gen.codes', 'Nb.C17.Gen.giftiDtypes', 'Nb.C17.Gen.names']
 
 
 # ------------------------------------------------------------------------------------------ helpers
